@@ -424,6 +424,7 @@ def gen_rust():
             out.append('    fn try_clone_from(&mut self, src: &Self) -> bool { self.clone_from(src); true }')
         if c['reserve_items'] and ref_ok(e):
             out.append('    fn try_reserve_items(&mut self, items: &[Self::Owned]) -> bool { self.reserve_items(items.iter()); true }')
+            out.append('    fn try_fs_reserve_items<S: flatcontainer::impls::index::IndexContainer<Self::Index>>(fs: &mut FlatStack<Self, S>, items: &[Self::Owned]) -> bool { fs.reserve_items(items.iter()); true }')
             rf = reserve_forms(e)
             out.append('    fn try_reserve_items_form(&mut self, items: &[Self::Owned], form: u32) -> bool {')
             out.append('        match form {')
@@ -466,6 +467,8 @@ def gen_rust():
         out.append('        }')
         out.append('    }')
         out.append('    fn push_item(&mut self, src: &Self, i: Self::Index, owned: bool) -> Self::Index { push_item_generic(self, src, i, owned) }')
+        if caps(e)['reserve_items'] and ref_ok(e):
+            out.append('    fn try_fs_reserve_items<S: flatcontainer::impls::index::IndexContainer<Self::Index>>(fs: &mut FlatStack<Self, S>, items: &[Self::Owned]) -> bool { fs.reserve_items(items.iter()); true }')
         out.append('}')
     out.append('/// size_of of the types the model needs sizes for, per entry (see catalogue.size_slots)')
     out.append('pub fn entry_sizes() -> Vec<(&\'static str, Vec<usize>)> {')
